@@ -187,7 +187,7 @@ def replay(tokens_list, which, label):
         n += 1
         ra, rb = a.parse(toks), b.parse(toks)
         if not _same_result(ra, rb):
-            viol.append({"key": "replay-differs", "msg": "%s: %s" % (label, " ".join(t.symbol for t in toks)[:400])})
+            viol.append({"key": "replay-differs", "msg": "%s: %s" % (label, " ".join(str(t.symbol) for t in toks)[:400])})
             if len(viol) > 3:
                 break
     return viol, n
